@@ -837,6 +837,7 @@ def gen_nested_same_start(rng, reg0=True):
 
 
 def root_node(rng, r0, variant=None):
+  global ROOT_VARIANTS
   """A potential whose energy is EXACTLY 0.0 at r0 (exactly representable) while its slope there is not:
   alone, or as one term / one factor of a modifier tree.  Returns (node, variant)."""
   c = rng.choice([2.0, 4.0, 0.5, -8.0])
@@ -846,7 +847,7 @@ def root_node(rng, r0, variant=None):
                     {"k": "form", "name": "constant", "p": [rfloat(rng, 0.5, 3.0)]},
                     {"k": "form", "name": "polynomial", "p": [rfloat(rng, 1.0, 3.0), rfloat(rng, 0.1, 1.0)]}])
   zero = {"k": "form", "name": "zero", "p": []}
-  variants = ["poly", "sum_zero", "lj", "product_root_first", "product_root_last", "product_lj", "product_of_products", "sum_of_product_and_zero"]
+  variants = ROOT_VARIANTS
   v = variant or rng.choice(variants)
   if v == "poly":
     node = poly
@@ -862,12 +863,18 @@ def root_node(rng, r0, variant=None):
     node = {"k": "product", "a": [pos, lj] if rng.random() < 0.5 else [lj, pos]}
   elif v == "product_of_products":
     node = {"k": "product", "a": [{"k": "product", "a": [pos, poly]}, {"k": "form", "name": "constant", "p": [rfloat(rng, 0.5, 2.0)]}]}
+  elif v == "pow_exponent_one":
+    # X**1 is X: value 0 at the root, slope that of X (the power rule's 1 * X**0 * X')
+    node = {"k": "pow", "a": [poly, {"k": "form", "name": "constant", "p": [rng.choice([1, 1.0])]}]}
+  elif v == "pow_exponent_one_in_product":
+    node = {"k": "product", "a": [pos, {"k": "pow", "a": [poly, {"k": "form", "name": "constant", "p": [rng.choice([1, 1.0])]}]}]}
   else:
     node = {"k": "sum", "a": [{"k": "product", "a": [poly, pos]}, zero]}
   return node, v
 
 
-ROOT_VARIANTS = ["poly", "sum_zero", "lj", "product_root_first", "product_root_last", "product_lj", "product_of_products", "sum_of_product_and_zero"]
+ROOT_VARIANTS = ["poly", "sum_zero", "lj", "product_root_first", "product_root_last", "product_lj", "product_of_products", "sum_of_product_and_zero",
+                 "pow_exponent_one", "pow_exponent_one_in_product"]
 
 
 def make_huge(rng, model):
